@@ -182,6 +182,27 @@ def removedApportionmentLaw (part : Sem) : Sem := fun a => do
   part { votes := a.votes, n := some (.num s)
          prev := some (a.prev.getD (.dict [])), max := some (a.max.getD (.dict [])) }
 
+/-- one party's seats split over the constituencies: the allocator sees the party's votes in every constituency,
+    the party's seats, and the party's columns of the previous gains and of the caps -/
+def partyAllocation (allocator : Sem) (kvs : D) (prev max : V) (pk : Key × V) : Except Err D := do
+  let pv ← kvs.mapM (fun p => do
+    let sub ← subsetVotes p.2 (.list [V.ofKey pk.1])
+    let sd ← sub.items
+    let s ← sumVals sd
+    pure (p.1, V.num s))
+  let pp ← partyColumn prev pk.1
+  let pm ← partyColumn max pk.1
+  let allocated ← allocator { votes := .dict pv, n := some pk.2, prev := some pp, max := some pm }
+  allocated.items
+
+/-- a party's allocation written into the table constituency -> party -> seats -/
+def enterAllocation (party : Key) (res : D) (ad : D) : Except Err D :=
+  ad.foldlM (fun res cs => setNested res cs.1 party cs.2) res
+
+/-- constituencies nobody was seated in get an empty entry -/
+def fillEmpty (kvs : D) (res : D) : D :=
+  kvs.foldl (fun res p => if D.has res p.1 then res else res ++ [(p.1, V.dict [])]) res
+
 /-- the overall evaluator on the national totals decides the seats of each party; the allocator splits a
     party's seats over the constituencies by the party's votes, previous gains and caps there -/
 def byPartyLaw (overallNeeds : Bool) (overall allocator : Sem) : Sem := fun a => do
@@ -192,17 +213,9 @@ def byPartyLaw (overallNeeds : Bool) (overall allocator : Sem) : Sem := fun a =>
   let od ← ores.items
   let kvs ← a.votes.items
   let res ← od.foldlM (fun (res : D) pk => do
-    let pv ← kvs.mapM (fun p => do
-      let sub ← subsetVotes p.2 (.list [V.ofKey pk.1])
-      let sd ← sub.items
-      let s ← sumVals sd
-      pure (p.1, V.num s))
-    let pp ← partyColumn prev pk.1
-    let pm ← partyColumn max pk.1
-    let allocated ← allocator { votes := .dict pv, n := some pk.2, prev := some pp, max := some pm }
-    let ad ← allocated.items
-    ad.foldlM (fun res cs => setNested res cs.1 pk.1 cs.2) res) []
-  pure (.dict (kvs.foldl (fun res p => if D.has res p.1 then res else res ++ [(p.1, V.dict [])]) res))
+    let ad ← partyAllocation allocator kvs prev max pk
+    enterAllocation pk.1 res ad) []
+  pure (.dict (fillEmpty kvs res))
 
 /-- multi-stage distribution equals chaining the stages with accumulated previous gains -/
 def chainStages (depth : Nat) (n max : V) : List (Sem × V) → V → Except Err V
@@ -344,6 +357,41 @@ def choicesClean (tb : Sem) (votes : V) (l : List V) : Bool :=
     | .ok chosen => chosen.all (notTie t.1)
     | .error _ => true)
 
+/-- the answer of a tiebreaker names candidates (or other ties) first and the very tie it was asked to
+    break only at the end — as every selector built on `get_n_best` does -/
+def tiesLast (t : List Cand) (chosen : List V) : Bool :=
+  (chosen.dropWhile (notTie t)).all (fun x => !notTie t x)
+
+/-- along the run of the tie loop (the selection `res` changes from tie to tie): every answer is `tiesLast`
+    and names at most as many entries as the tie still has places (decidable by evaluation) -/
+def answersTiesLast (tb : Sem) (votes : V) : List (List Cand × Nat) → List V → Bool
+  | [], _ => true
+  | t :: ts, res =>
+      match tieChoice tb votes t.1 t.2 with
+      | .error _ => true
+      | .ok chosen =>
+          tiesLast t.1 chosen && decide (chosen.length ≤ tiePlaces t.1 res)
+            && (match replaceSel res t.1 chosen with
+                | .ok res' => answersTiesLast tb votes ts res'
+                | .error _ => true)
+
+/-- open lists: the list evaluator's choice for one party, from the party's list votes, its seats and its list -/
+def openList (le : ListSem) (lv pl : V) (p : Key × V) : Except Err (Key × V) := do
+  let lvd ← match lv with
+    | .dict d => pure d
+    | _ => throw eType
+  let pv ← match D.get? lvd p.1 with
+    | some x => pure x
+    | Option.none => throw eKey
+  let pld ← match pl with
+    | .dict d => pure d
+    | _ => throw eType
+  let lst ← match D.get? pld p.1 with
+    | some x => pure x
+    | Option.none => throw eKey
+  let x ← le pv p.2 lst
+  pure (p.1, x)
+
 /-- party-list evaluation seats exactly as many list candidates as the party won (closed lists: from
     the top of the list; open lists: the list evaluator's choice of that many) -/
 def partyListLaw (party : Sem) (listEval : Option ListSem) (conv : Option (V → Except Err V)) : Sem :=
@@ -369,21 +417,7 @@ def partyListLaw (party : Sem) (listEval : Option ListSem) (conv : Option (V →
         let lv' ← match conv with
           | some c => c lv
           | Option.none => pure lv
-        let r ← wd.mapM (fun p => do
-          let lvd ← match lv' with
-            | .dict d => pure d
-            | _ => throw eType
-          let pv ← match D.get? lvd p.1 with
-            | some x => pure x
-            | Option.none => throw eKey
-          let pld ← match pl with
-            | .dict d => pure d
-            | _ => throw eType
-          let lst ← match D.get? pld p.1 with
-            | some x => pure x
-            | Option.none => throw eKey
-          let x ← le pv p.2 lst
-          pure (p.1, x))
+        let r ← wd.mapM (openList le lv' pl)
         pure (.dict r)
 
 /-! ## the compositional semantics -/
